@@ -213,4 +213,12 @@ def _field_names(T, atom):
     return out
 
 
-RULES = [("R5", r5, None), ("R1", r1, None), ("R2", r2, None), ("R3", r3, None), ("R4", r4, None)]
+def r6(F, R):
+    """The counters read through `writer::Stats` of a wrapped / combined writer are the summary's own, getter for getter
+    (Tee = max, Or = sum, wrappers delegate) — C01.R4's algebra; a getter wired to another counter reports numbers the stream
+    does not contain."""
+    from . import c01
+    c01.r4(F, R)
+
+
+RULES = [("R5", r5, None), ("R1", r1, None), ("R2", r2, None), ("R3", r3, None), ("R4", r4, None), ("R6", r6, None)]
